@@ -91,6 +91,17 @@ Trade(c, dq) ==
            /\ Log([op |-> "trade", c |-> c, x |-> dq, y |-> "-", out |-> r.out, nlv |-> Nlv(r.st)])
     /\ UNCHANGED <<track, clk>>
 
+\* an order priced earlier (at tb / ta) and executed now, whatever the book shows now
+TradeAt(c, dq, b, sp) ==
+    /\ "tradeat" \in Ops
+    /\ \E r \in {TransactAtF(st, c, dq, RM(b), RM(b + sp))} :
+           /\ st' = r.st
+           /\ h' = IF r.out = "ok"
+                   THEN [h EXCEPT !.paid[c] = Add(@, Mul(dq, r.exec)), !.fees = Add(@, r.comm)]
+                   ELSE h
+           /\ Log([op |-> "tradeat", c |-> c, x |-> dq, y |-> "-", tb |-> RM(b), ta |-> RM(b + sp), out |-> r.out, nlv |-> Nlv(r.st)])
+    /\ UNCHANGED <<track, clk>>
+
 Mark(c) ==
     /\ "mark" \in Ops
     /\ \E n1 \in {MarkF(st, c)} :
@@ -141,7 +152,10 @@ DoRebalance(req, dt, tag, prepared) ==
         /\ track' = IF r.out = "ok" THEN track + 1 ELSE track
         /\ Log([op |-> tag, c |-> "-", x |-> req, y |-> t, out |-> r.out, nlv |-> Nlv(r.st),
                 pre |-> r.pre, post |-> r.post, trades |-> r.trades, interest |-> r.interest, edge |-> r.edge,
-                prepared |-> prepared])
+                prepared |-> prepared,
+                \* the weights the account reports after the rebalance (context_post): notional value / NLV
+                wpost |-> IF r.out = "ok" /\ r.post # NaN /\ ~IsZero(r.post) /\ Valuable(r.st)
+                          THEN [c \in C |-> Div(Notional(r.st, c), r.post)] ELSE <<>>])
 
 Lots(tgt, dt) ==
     /\ "lots" \in Ops
@@ -189,6 +203,7 @@ Next ==
              \/ \E c \in C, b \in Bids, side \in {"bid", "ask", "both"} : Half(c, b, side)
              \/ \E c \in C : Discontinue(c)
              \/ \E c \in C, dq \in DQs : Trade(c, dq)
+             \/ \E c \in C, dq \in DQs, b \in Bids, sp \in Spreads : TradeAt(c, dq, b, sp)
              \/ \E c \in C : Mark(c)
              \/ MarkAll
              \/ \E r \in BOOLEAN : Value(r)
@@ -220,9 +235,10 @@ SelfFinancing == Valuable(st) => NlvOf(st) = Ideal(st, h)
 PosVal(s, c) == IF IsZero(s.pos[c]) THEN Zero ELSE Mul(s.pos[c], Liq(s, c))
 
 TradeDelta ==
-    [][ (last'.op = "trade" /\ last'.out = "ok" /\ Valuable(st) /\ Valuable(st')) =>
+    [][ (last'.op \in {"trade", "tradeat"} /\ last'.out = "ok" /\ Valuable(st) /\ Valuable(st')) =>
           LET c == last'.c  dq == last'.x
-              exec == AcqPrice(st, c, Sign(dq))
+              exec == IF last'.op = "trade" THEN AcqPrice(st, c, Sign(dq))
+                      ELSE IF Sign(dq) > 0 THEN last'.ta ELSE last'.tb
           IN  Sub(NlvOf(st'), NlvOf(st)) =
                 Add(Neg(Commission(c, exec, dq)),
                     Mul(RM(Mult[c]), Sub(Sub(PosVal(st', c), PosVal(st, c)), Mul(dq, exec)))) ]_vars
@@ -248,6 +264,7 @@ MarginInv ==
     /\ (last.op \in {"value", "markall", "rebalance", "weights", "context"} /\ last.out \in {"ok", "broke"} /\ Valuable(st))
           => \A c \in C : MarginOk(st, c)
     /\ (last.op = "trade" /\ last.out = "ok") => MarginOk(st, last.c)
+    /\ (last.op = "tradeat" /\ last.out = "ok" /\ Liq(st, last.c) # NaN) => MarginOk(st, last.c)
     /\ (last.op = "mark" /\ Liq(st, last.c) # NaN /\ st.ref[last.c] # None) => MarginOk(st, last.c)
     /\ \A c \in C : Sign(st.mrg[c]) >= 0
 
@@ -292,6 +309,13 @@ TargetReached ==
 FrictionlessNlv ==
     (last.op = "rebalance" /\ last.out = "ok" /\ IsZero(Fixed) /\ IsZero(Prop)
         /\ \A c \in C : (st.bid[c] = st.ask[c])) => last.post = last.pre
+
+\* ... and the weights reported after the rebalance are the target weights
+FrictionlessWeights ==
+    (last.op = "rebalance" /\ last.out = "ok" /\ IsZero(Fixed) /\ IsZero(Prop) /\ last.wpost # <<>>
+        /\ last.x.measure = "weight" /\ IsZero(last.x.thr) /\ last.x.fractional /\ last.x.absolute
+        /\ \A c \in C : (st.bid[c] = st.ask[c]))
+      => \A c \in C : last.wpost[c] = (IF c \in DOMAIN last.x.alloc THEN last.x.alloc[c] ELSE Zero)
 
 \* immediately repeating the same request in a frictionless market trades nothing
 SecondRebalanceIdle ==
